@@ -188,6 +188,15 @@ func GenStopAfterUnnoticedLossPlan(t *rapid.T, profile string) *Plan {
 	// A is stopped within one heartbeat interval of the loss
 	ts := tB + odd(time.Duration(rapid.Int64Range(20, int64(h)).Draw(t, "stop_after")))
 	stop := Action{At: ts, Kind: ActStopCtx, Inst: 0, DeleteKey: rapid.IntRange(0, 5).Draw(t, "delete_key") > 0, WaitForDemote: rapid.Bool().Draw(t, "wait_for_demote")}
+	if len(p.Timeline) == 2 && p.Timeline[1].Kind == ActStart && rapid.IntRange(0, 2).Draw(t, "loss_during_shutdown") == 0 {
+		// ... or A still owns the record when its shutdown looks at it, and B's takeover lands between that
+		// look and the delete that follows it (the delete request of A is slow)
+		ts = tB
+		stop.At, stop.DeleteKey = ts, true
+		d := time.Duration(rapid.Int64Range(int64(time.Microsecond), int64(40*time.Millisecond)).Draw(t, "delete_lat"))
+		p.Instances[0].Rules = append(p.Instances[0].Rules, OpRule{Kind: OpDelete, N: 0, SetLat: true, ReqLat: d, RespLat: 1})
+		p.Timeline[1].At = ts + p.Instances[0].PromoteLinger + odd(time.Duration(rapid.Int64Range(8, int64(d)).Draw(t, "b_after_look")))
+	}
 	switch rapid.IntRange(0, 3).Draw(t, "stop_timeout") {
 	case 0:
 		stop.CtxMode, stop.CtxTimeout = "deadline", 3*time.Second+1
@@ -222,7 +231,7 @@ func GenStopAfterUnnoticedLossPlan(t *rapid.T, profile string) *Plan {
 //     leadership check and the load of the revision it refreshes against, while a higher-priority instance
 //     takes the record over and the watcher records the successor's revision.
 func GenStallPlan(t *rapid.T, profile string) *Plan {
-	shape := rapid.IntRange(0, 2).Draw(t, "stall_shape")
+	shape := rapid.IntRange(0, 3).Draw(t, "stall_shape")
 	if v := os.Getenv("VERIF_STALL_SHAPE"); v != "" { // (development aid)
 		shape = int(v[0] - '0')
 	}
@@ -259,6 +268,26 @@ func GenStallPlan(t *rapid.T, profile string) *Plan {
 			p.Stalls = append(p.Stalls, Stall{Inst: rapid.IntRange(0, len(p.Instances)-1).Draw(t, "stall_inst"), Point: PointAcquireAdopt, N: rapid.IntRange(0, 4).Draw(t, "stall_n"),
 				D: time.Duration(rapid.Int64Range(int64(time.Microsecond), int64(300*time.Millisecond)).Draw(t, "stall"))})
 		}
+		return p
+	}
+	if shape == 3 {
+		// heartbeat-outlives-term: an iteration of the heartbeat loop is held, before it reads the election's
+		// state or after its refresh was answered, for so long that the term ends (the record is deleted from
+		// outside, the validation loop notices) and the same instance leads a new term when it goes on
+		h := rapid.SampledFrom([]time.Duration{100 * time.Millisecond, 200 * time.Millisecond}).Draw(t, "H")
+		p := &Plan{Profile: profile + "/stall-heartbeat-outlives-term", H: h, TTL: 3 * h, SnapEvery: odd(h/3 + 43*time.Microsecond), Dice: []float64{0}}
+		p.Instances = []Inst{{ID: "A", Group: "g", Lat: []time.Duration{1, 3}, VI: h, Promote: rapid.SampledFrom([]int{0, 1}).Draw(t, "promote")}}
+		if rapid.Bool().Draw(t, "health") {
+			p.Instances[0].HasHealth = true
+		}
+		p.Timeline = []Action{{At: 1, Kind: ActStart, Inst: 0}}
+		k := rapid.IntRange(1, 4).Draw(t, "tick")
+		d := 2*time.Second + time.Duration(rapid.Int64Range(0, int64(time.Second)).Draw(t, "stall"))
+		p.Stalls = []Stall{{Inst: 0, Point: rapid.SampledFrom([]string{PointHeartbeatSnap, PointHeartbeatAns}).Draw(t, "point"), N: k - 1, D: d}}
+		tick := time.Duration(k) * h
+		p.Timeline = append(p.Timeline, Action{At: odd(tick + time.Duration(rapid.Int64Range(int64(time.Millisecond), int64(h/2)).Draw(t, "del_after_tick"))), Kind: ActExtDelete, Inst: -1, Key: "g"})
+		p.Horizon = tick + d + 8*h + p.TTL + 2*time.Second
+		sortTimeline(p)
 		return p
 	}
 	h := rapid.SampledFrom([]time.Duration{200 * time.Millisecond, time.Second}).Draw(t, "H")
